@@ -565,10 +565,24 @@ pub fn apply_corruption(bytes: &mut Vec<u8>, kv: &Kv, key: &[u8]) -> Option<Stri
                 if !strs.is_empty() {
                     let a = strs[idx % strs.len()];
                     let seqs: [&[u8]; 6] = [&[0xc3, 0xa9], &[0xe2, 0x82, 0xac], &[b'"'], &[b'\\'], &[0xf0, 0x9f, 0x98, 0x80], &[0xc3]];
-                    let seq = seqs[(val as usize) % seqs.len()];
+                    // val >= 6: a pair of characters U+00C0..U+00FD, U+0080..U+00BF (text that looks like UTF-8 encoded
+                    // twice; the only non-ASCII shape the library's quoted-string grammar lets through)
+                    let val_full = kv_u64(kv, "val", 0) as usize;
+                    let pair: Vec<u8>;
+                    let seq: &[u8] = if val_full >= 6 {
+                        let lead = [0xC2u32, 0xC3, 0xE2, 0xFD][((val_full - 6) / 64) % 4];
+                        let trail = 0x80u32 + ((val_full - 6) % 64) as u32;
+                        let mut st = String::new();
+                        st.push(char::from_u32(lead).unwrap());
+                        st.push(char::from_u32(trail).unwrap());
+                        pair = st.into_bytes();
+                        &pair
+                    } else {
+                        seqs[val_full % seqs.len()]
+                    };
                     let mut v = a.value.clone();
                     let lo = if a.typ == wire::A_ERROR_CODE { 4.min(v.len()) } else { 0 };
-                    let at = lo + if v.len() > lo { pos % (v.len() - lo + 1) } else { 0 };
+                    let at = lo + if v.len() > lo { if pos >= 1000 { v.len() - lo } else { pos % (v.len() - lo + 1) } } else { 0 };
                     v.splice(at..at, seq.iter().copied());
                     let mut out = bytes[..a.off].to_vec();
                     out.extend_from_slice(&a.typ.to_be_bytes());
@@ -629,7 +643,7 @@ fn gen_corruption(rng: &mut Rng, len: usize, splice: bool) -> String {
                 format!("corrupt=nested-set idx={} k={} v={}", rng.below(2), rng.below(3), rng.below(12))
             }
         }
-        _ => format!("corrupt=utf8 idx={} pos={} val={}", rng.below(4), rng.below(20), rng.below(6)),
+        _ => format!("corrupt=utf8 idx={} pos={} val={}", rng.below(4), *rng.pick(&[0u64, 1, 5, 9, 10, 11, 12, 13, 19, 1000]), if rng.chance(1, 2) { rng.below(6) } else { 6 + rng.below(256) }),
     }
 }
 
